@@ -205,3 +205,11 @@ Theorem C07_short_bodies_rejected :
   (forall old bs, (length bs < 2)%nat -> decode_dcmisensor old bs = Err) /\
   (forall old bs, (2 <= length bs)%nat -> (length bs < 2 + N.to_nat (nth 1 bs 0%N) * 2)%nat -> decode_dcmisensor old bs = Err).
 Proof. exact all_short_rejected. Qed.
+
+(* reserved bits a BMC may set: bit 5 of the ID string type/length byte of a Full Sensor Record is ignored - the record
+   decodes exactly as the one with the bit clear (type = bits 7:6, length = bits 4:0) *)
+Theorem C07_fsr_reserved_bit_ignored : forall old b0 b1 b2 b3 b4 b5 b6 b7 b8 b9 b10 b11 b12 b13 b14 b15 b16 b17 b18 b19 b20 b21 b22 b23 b24 b25 b26 b27 b28 b29 b30 b31 b32 b33 b34 b35 b36 b37 b38 b39 b40 b41 d42 rest,
+  d42 < 256 -> N.testbit d42 5 = false ->
+  decode_fsr old (b0 :: b1 :: b2 :: b3 :: b4 :: b5 :: b6 :: b7 :: b8 :: b9 :: b10 :: b11 :: b12 :: b13 :: b14 :: b15 :: b16 :: b17 :: b18 :: b19 :: b20 :: b21 :: b22 :: b23 :: b24 :: b25 :: b26 :: b27 :: b28 :: b29 :: b30 :: b31 :: b32 :: b33 :: b34 :: b35 :: b36 :: b37 :: b38 :: b39 :: b40 :: b41 :: (d42 + 32) :: rest) =
+  decode_fsr old (b0 :: b1 :: b2 :: b3 :: b4 :: b5 :: b6 :: b7 :: b8 :: b9 :: b10 :: b11 :: b12 :: b13 :: b14 :: b15 :: b16 :: b17 :: b18 :: b19 :: b20 :: b21 :: b22 :: b23 :: b24 :: b25 :: b26 :: b27 :: b28 :: b29 :: b30 :: b31 :: b32 :: b33 :: b34 :: b35 :: b36 :: b37 :: b38 :: b39 :: b40 :: b41 :: d42 :: rest).
+Proof. exact fsr_reserved_bit_ignored. Qed.
